@@ -377,6 +377,27 @@ def r6_bit_helpers_fresh(ck, cx, rule='R6'):
         ck.ob(rule, fn.qn, 'no decorator (memoisation shares the mutable result between callers)', not fn.node.decorator_list,
               detail='decorated %s' % [U(d)[:30] for d in fn.node.decorator_list], loc=cx.floc(fn),
               message='%s is decorated with %s: every caller that decodes the same bytes gets the same list object' % (fn.qn, [U(d) for d in fn.node.decorator_list]))
+        # the argument belongs to the caller (a message's own bit list): the helper reads it and never changes it in place
+        for par in fn.params:
+            for x in ast.walk(fn.node):
+                hit = None
+                if isinstance(x, ast.AugAssign) and isinstance(x.target, ast.Name) and x.target.id == par and not isinstance(x.value, ast.Constant):
+                    hit = '%s %s= ...' % (par, {ast.Add: '+', ast.Mult: '*'}.get(type(x.op), '?'))
+                elif isinstance(x, (ast.Assign, ast.AugAssign, ast.Delete)):
+                    for t in (x.targets if isinstance(x, (ast.Assign, ast.Delete)) else [x.target]):
+                        if isinstance(t, ast.Subscript) and isinstance(t.value, ast.Name) and t.value.id == par:
+                            hit = '%s[...] written' % par
+                elif isinstance(x, ast.Call) and isinstance(x.func, ast.Attribute) and isinstance(x.func.value, ast.Name) and x.func.value.id == par \
+                        and x.func.attr in ('append', 'extend', 'insert', 'pop', 'remove', 'sort', 'reverse', 'clear'):
+                    hit = '%s.%s()' % (par, x.func.attr)
+                if hit:
+                    # a rebinding of the parameter to a fresh object earlier in the function makes the name the helper's own
+                    rebound = any(isinstance(y, ast.Assign) and any(isinstance(t, ast.Name) and t.id == par for t in y.targets) and y.lineno < x.lineno
+                                  for y in ast.walk(fn.node))
+                    n += 1
+                    ck.ob(rule, fn.qn, 'the helper does not modify its argument in place', rebound, detail='helper-mutates-argument %s' % hit.split()[0].split('[')[0].split('.')[0],
+                          loc=cx.floc(fn, x), message='%s changes its argument in place (%s): the list belongs to the message that is being encoded, so the '
+                                                      'message is different after encode() -- a second encode (a retry) puts other bytes on the wire' % (fn.qn, hit))
         if name != 'unpack_bitstring':
             continue
         globals_ = set(m.consts) | {t.id for nd in m.tree.body if isinstance(nd, ast.Assign) for t in nd.targets if isinstance(t, ast.Name)}
